@@ -22,6 +22,7 @@ import RdestModel.Props.C12
 import RdestModel.Props.C13
 import RdestModel.Props.C03
 import RdestModel.Meta.Store
+import RdestModel.Lemmas.Cand
 set_option linter.unusedSimpArgs false
 set_option linter.unusedVariables false
 namespace Rdest.Props.C02
@@ -582,6 +583,128 @@ theorem old_complete_without_extraction :
 /-- Non-vacuity of T4: with the same history the repaired rule has started extraction. -/
 example : (xrun false { m := { statuses := List.replicate 1 .missing, peers := [] } } stayingPeer).map
     (fun x => (x.extracted, stillMissing x.m.statuses)) = some (true, 0) := by decide
+
+/-! ## T5: listed peers are not left out (connection bookkeeping, model `Swarm/Cand.lean`) -/
+
+section Bookkeeping
+open Rdest.Swarm.Book
+
+theorem bkstep_known (guard : Bool) (c c' : CState) (e : CEv) (r : Reply) (hk : Known c)
+    (h : bkstep guard c e = some (c', r)) : Known c' := by
+  cases e with
+  | trackerFail => simp only [bkstep, Option.some.injEq, Prod.mk.injEq] at h; rw [← h.1]; exact hk
+  | trackerResp l =>
+    simp only [bkstep, Option.some.injEq, Prod.mk.injEq] at h
+    rw [← h.1]
+    have h1 : Known { c with cands := c.cands ++ l, listed := c.listed ++ l } := by
+      intro a ha
+      simp only [List.mem_append] at ha
+      rcases ha with ha | ha
+      · rcases hk a ha with h | h | h
+        · left; simp [h]
+        · exact Or.inr (Or.inl h)
+        · exact Or.inr (Or.inr h)
+      · left; simp [ha]
+    exact spawnN_known _ _ h1
+  | peer ev =>
+    simp only [bkstep] at h
+    split at h
+    · cases h
+    · rename_i x' r' hx
+      have h0 : Known { c with x := x' } := hk
+      split at h
+      · split at h
+        · cases h; exact h0
+        · split at h
+          · cases h
+            unfold spawnTracker
+            split
+            · exact h0
+            · exact h0
+          · cases h; exact spawnOne_known _ h0
+      · split at h
+        · cases h
+          unfold tryNext
+          split
+          · exact h0
+          · exact spawnOne_known _ h0
+        · cases h; exact h0
+
+/-- **T5a (C02, manager model).** In every reachable state — any history of peer commands, tracker replies and
+    tracker failures — no address a tracker ever listed has been forgotten: it is still queued as a candidate, or a
+    connection task was started for it, or it was dropped because a connection to that very address existed. -/
+theorem T5_no_listed_peer_is_forgotten (guard : Bool) (np : Nat) (c : CState) (h : CReach guard np c) : Known c := by
+  induction h with
+  | init held => intro a ha; simp [cinit] at ha
+  | step c c' e r _ hs ih => exact bkstep_known guard c c' e r ih hs
+
+/-- **T5b (C02, manager model).** Whenever a connected peer runs dry (its reply says it has nothing (more) for us) or
+    a connection ends, pieces are still missing and a candidate is queued, the manager takes the last candidate off
+    the list and that address has a connection afterwards. -/
+theorem T5_dry_peer_brings_the_next_candidate (guard : Bool) (c c' : CState) (ev : Ev) (r : Reply) (a : Nat)
+    (h : bkstep guard c (.peer ev) = some (c', r)) (hdry : isKill ev = true ∨ nothingToGet ev r = true)
+    (hmiss : c'.complete = false) (hlast : c.cands.getLast? = some a) :
+    c'.cands = c.cands.dropLast ∧ connected c' a = true := by
+  simp only [bkstep] at h
+  split at h
+  · cases h
+  · rename_i x' r' hx
+    have hne : ({ c with x := x' } : CState).cands.isEmpty = false := by
+      cases hc : c.cands with
+      | nil => rw [hc] at hlast; cases hlast
+      | cons _ _ => rfl
+    have hl1 : ({ c with x := x' } : CState).cands.getLast? = some a := hlast
+    split at h
+    · split at h
+      · rename_i hcomp
+        cases h; rw [hcomp] at hmiss; cases hmiss
+      · rw [hne] at h
+        simp only [Bool.false_eq_true, if_false, Option.some.injEq, Prod.mk.injEq] at h
+        rw [← h.1]
+        exact ⟨by simp, spawnOne_connects_last _ a hl1⟩
+    · rename_i hnk
+      rcases hdry with hd | hd
+      · exact absurd hd hnk
+      · split at h
+        · cases h
+          unfold tryNext at hmiss ⊢
+          split at hmiss
+          · rename_i hcomp; rw [hcomp] at hmiss; cases hmiss
+          · rename_i hcomp
+            simp only [hcomp]
+            exact ⟨by simp, spawnOne_connects_last _ a hl1⟩
+        · rename_i hn
+          cases h
+          exact absurd hd hn
+
+/-- **T5c (C02, manager model).** A connection ends, pieces are missing and no candidate is left: the manager holds a
+    tracker task afterwards (a new announce was started unless one was still running). -/
+theorem T5_reannounce_when_no_candidate_is_left (guard : Bool) (c c' : CState) (a : Nat) (r : Reply)
+    (h : bkstep guard c (.peer (.kill a)) = some (c', r)) (hmiss : c'.complete = false) (hc : c.cands = []) :
+    c'.trackerHeld = true := by
+  simp only [bkstep] at h
+  split at h
+  · cases h
+  · rename_i x' r' hx
+    simp only [isKill, if_true] at h
+    split at h
+    · rename_i hcomp; cases h; rw [hcomp] at hmiss; cases hmiss
+    · simp only [hc, List.isEmpty_nil, if_true, Option.some.injEq, Prod.mk.injEq] at h
+      rw [← h.1]
+      unfold spawnTracker
+      split
+      · rename_i hg; simp at hg; exact hg.2
+      · rfl
+
+/-- Non-vacuity (tests): twelve peers listed, eleven contacted at the reply, the twelfth when one of them runs dry. -/
+example : ((bkstep true (cinit 1) (.trackerResp (List.range 12))).map fun p => (p.1.cands, p.1.contacted.length)) =
+    some ([0], 11) := by decide
+example :
+    (((bkstep true (cinit 1) (.trackerResp (List.range 12))).bind fun p =>
+        bkstep true p.1 (.peer (.bitfield 11 [false] none))).map fun p => (p.1.cands, p.1.contacted.length)) =
+      some ([], 12) := by decide
+
+end Bookkeeping
 
 /-! ### Non-vacuity (tests) -/
 
